@@ -25,6 +25,33 @@ class HarnessBroken(Exception):
     '''the harness itself is wrong (exit 2) - never a VIOLATION'''
 
 
+class CodeRaised(Exception):
+    '''an exception that left the code under test (innermost frame inside the
+    dawgie sources) at a place where the harness did not expect one.  Reported
+    as a violation of the property being checked (the operation the property
+    talks about failed), not as a harness error.'''
+
+    def __init__(self, kind, where, tb):
+        Exception.__init__(self, f'{kind} in {where}')
+        self.kind, self.where, self.tb = kind, where, tb
+
+
+def classify_exception(exc):
+    '''(kind, where) if the innermost frame of exc is code under test, else None'''
+    tb = exc.__traceback__
+    last = None
+    while tb is not None:
+        last = tb
+        tb = tb.tb_next
+    if last is None:
+        return None
+    fn = last.tb_frame.f_code.co_filename
+    if os.path.realpath(fn).startswith(os.path.realpath(PYROOT) + os.sep):
+        rel = os.path.relpath(os.path.realpath(fn), os.path.realpath(PYROOT))
+        return type(exc).__name__, f'{rel}:{last.tb_frame.f_code.co_name}'
+    return None
+
+
 class GraphMismatch(Exception):
     '''the task graph built by the real code lacks an algorithm the engine
     declares: reported as a violation by the scheduler checks (such an
@@ -282,6 +309,8 @@ def pmap(func, items, procs=None, chunk=None):
     res = []
     for ok, val in out:
         if not ok:
+            if isinstance(val, tuple):
+                raise CodeRaised(*val)
             raise HarnessBroken('worker failed:\n' + val)
         res.append(val)
     return res
@@ -293,7 +322,12 @@ _PFUNC = None
 def _pcall(item):
     try:
         return True, _PFUNC(item)
-    except BaseException:  # noqa
+    except HarnessBroken:
+        return False, traceback.format_exc()
+    except BaseException as e:  # noqa
+        c = classify_exception(e)
+        if c is not None:
+            return False, (c[0], c[1], traceback.format_exc())
         return False, traceback.format_exc()
     finally:
         cleanup_scratch()
